@@ -242,6 +242,78 @@ pub struct SetNestedManyMidAccounts {
     pub after: AccountInfo,
 }
 
+// ---- PDA accounts with 1, 2, 3 relative account-path seeds (+ constant, `:`-rooted, nested-relative mixes)
+// at flattened depth 1 (`PdaD1`), 2 (`PdaD2.g`) and 3 (`PdaD3.h.g`), with decoy accounts of the same last
+// path component (`mint`, `market`, `owner`, `vault`) at the outer levels.
+#[derive(Debug, GetSeeds, Clone)]
+#[get_seeds(seed_const = b"P1")]
+pub struct Pda1Seeds {
+    pub a: Pubkey,
+}
+#[derive(Debug, GetSeeds, Clone)]
+#[get_seeds(seed_const = b"P2")]
+pub struct Pda2Seeds {
+    pub a: Pubkey,
+    pub b: Pubkey,
+}
+#[derive(Debug, GetSeeds, Clone)]
+#[get_seeds(seed_const = b"P3")]
+pub struct Pda3Seeds {
+    pub a: Pubkey,
+    pub b: Pubkey,
+    pub c: Pubkey,
+}
+
+#[derive(AccountSet, Debug)]
+pub struct PdaD1Accounts {
+    pub payer: Signer<Mut<SystemAccount>>,
+    pub market: AccountInfo,
+    pub mint: AccountInfo,
+    pub owner: AccountInfo,
+    #[validate(arg = Seeds(Pda1Seeds { a: *self.owner.pubkey() }))]
+    #[idl(arg = Seeds(FindPda1Seeds { a: seed_path("owner") }))]
+    pub v1: Seeded<AccountInfo, Pda1Seeds>,
+    #[validate(arg = Seeds(Pda2Seeds { a: *self.market.pubkey(), b: *self.mint.pubkey() }))]
+    #[idl(arg = Seeds(FindPda2Seeds { a: seed_path("market"), b: seed_path("mint") }))]
+    pub v2: Seeded<Mut<AccountInfo>, Pda2Seeds>,
+    #[validate(arg = Seeds(Pda3Seeds { a: *self.market.pubkey(), b: *self.mint.pubkey(), c: *self.owner.pubkey() }))]
+    #[idl(arg = Seeds(FindPda3Seeds { a: seed_path("market"), b: seed_path("mint"), c: seed_path("owner") }))]
+    pub v3: Seeded<Mut<AccountInfo>, Pda3Seeds>,
+    /// relative, `:`-rooted, relative (the rooted one in the middle)
+    #[validate(arg = Seeds(Pda3Seeds { a: *self.market.pubkey(), b: *self.payer.pubkey(), c: *self.mint.pubkey() }))]
+    #[idl(arg = Seeds(FindPda3Seeds { a: seed_path("market"), b: seed_path(":payer"), c: seed_path("mint") }))]
+    pub vmix: Seeded<AccountInfo, Pda3Seeds>,
+    /// only `:`-rooted seeds
+    #[validate(arg = Seeds(Pda2Seeds { a: *self.payer.pubkey(), b: *self.payer.pubkey() }))]
+    #[idl(arg = Seeds(FindPda2Seeds { a: seed_path(":payer"), b: seed_path(":payer") }))]
+    pub vnone: Seeded<AccountInfo, Pda2Seeds>,
+}
+
+#[derive(AccountSet, Debug)]
+pub struct PdaD2Accounts {
+    pub payer: Signer<Mut<SystemAccount>>,
+    /// decoys: what a lookup one level too high picks up
+    pub mint: AccountInfo,
+    pub market: AccountInfo,
+    pub owner: AccountInfo,
+    pub g: PdaD1Accounts,
+    /// relative paths INTO a nested set (words separated by a space)
+    #[validate(arg = Seeds(Pda2Seeds { a: *self.g.market.pubkey(), b: *self.mint.pubkey() }))]
+    #[idl(arg = Seeds(FindPda2Seeds { a: seed_path("g market"), b: seed_path("mint") }))]
+    pub top: Seeded<AccountInfo, Pda2Seeds>,
+}
+
+#[derive(AccountSet, Debug)]
+pub struct PdaD3Accounts {
+    /// the `:payer` seeds of the nested sets refer to this root account
+    pub payer: Signer,
+    pub mint: AccountInfo,
+    pub vault: AccountInfo,
+    pub h: PdaD2Accounts,
+    /// the depth-1 set once more, directly (depth 2 from here)
+    pub again: PdaD1Accounts,
+}
+
 // ------------------------------------------------------------------------------------------------ instructions
 macro_rules! ix {
     ($ix:ident, $accts:ident) => {
@@ -257,6 +329,9 @@ ix!(SetMany, SetManyAccounts);
 ix!(SetNested, SetNestedAccounts);
 ix!(SetInit, SetInitAccounts);
 ix!(SetOne, SetOneAccounts);
+ix!(PdaD1, PdaD1Accounts);
+ix!(PdaD2, PdaD2Accounts);
+ix!(PdaD3, PdaD3Accounts);
 ix!(SetPass, SetPassAccounts);
 ix!(SetManyMid, SetManyMidAccounts);
 ix!(SetRestMid, SetRestMidAccounts);
@@ -282,6 +357,9 @@ pub enum HxIdlInstructionSet {
     SetNested(SetNested),
     SetInit(SetInit),
     SetOne(SetOne),
+    PdaD1(PdaD1),
+    PdaD2(PdaD2),
+    PdaD3(PdaD3),
     SetPass(SetPass),
     SetManyMid(SetManyMid),
     SetRestMid(SetRestMid),
